@@ -1816,6 +1816,15 @@ impl HttpsProxy {
         }
     }
 
+    /// Tokens of the listeners bound to `address`
+    pub fn listener_tokens(&self, address: &StdSocketAddr) -> Vec<Token> {
+        self.listeners
+            .iter()
+            .filter(|(_, listener)| listener.borrow().address == *address)
+            .map(|(token, _)| *token)
+            .collect()
+    }
+
     pub fn remove_listener(
         &mut self,
         remove: RemoveListener,
